@@ -35,7 +35,7 @@ def bounds(tier):
 
 def required_cells(tier):
     return ["distinct-codebase-orders", "distinct-platform-orders", "distinct-scandir-orders", "hashseed", "shuffle", "creation-order",
-            "toml-permuted", "duplicates-present", "cov-compared", "clustering-compared", "raw-stdout-identical"]
+            "toml-permuted", "duplicates-present", "cov-compared", "clustering-compared"]
 
 
 def gen_case(rng):
